@@ -1,8 +1,106 @@
 import Drv.Base
-open Lean Pdt
+import PdtModel.Model.Reader
+open Lean Pdt Pdt.Reader
 namespace Drv
 
-/-- op handler of the `Reader` layer (stub until the layer is built) -/
-def handleReader (_op : String) (_j : Json) : Option (Except String Json) := none
+def excName : PyExc → String
+  | .valueError => "ValueError"
+  | .indexError => "IndexError"
+  | .typeError => "TypeError"
+  | .attributeError => "AttributeError"
+  | .keyError => "KeyError"
+  | .assertionError => "AssertionError"
+  | .columnUnit => "ColumnUnitException"
+  | .other n => String.ofList n
+
+def objPairs (j : Json) : Except String (List (String × Json)) :=
+  match j with
+  | .obj kvs => pure (kvs.toList.map (fun p => (p.1, p.2)))
+  | _ => throw "expected object"
+
+/-- Ext from the oracle tables on the line; a lookup miss is loud ("ORACLE-MISS") -/
+def extOfJson (j : Json) : Except String Ext := do
+  let floats ← objPairs (← j.getObjVal? "floats")
+  let dts ← objPairs (← j.getObjVal? "dts")
+  let digits ← getStr j "digits"
+  let pf : Str → Option Str := fun s =>
+    match floats.lookup (String.ofList s) with
+    | some (.str t) => some t.toList
+    | some .null => none
+    | _ => some "ORACLE-MISS".toList
+  let pd : Str → DtRes := fun s =>
+    match dts.lookup (String.ofList s) with
+    | some (.str "ValueError") => .valueError
+    | some v => match v.getObjVal? "ok" with
+      | .ok (.str t) => .ok t.toList
+      | _ => match v.getObjVal? "raises" with
+        | .ok (.str n) => .raises n.toList
+        | _ => .raises "ORACLE-MISS".toList
+    | none => .raises "ORACLE-MISS".toList
+  let isd : Char → Bool := fun c => ('0' ≤ c && c ≤ '9') || digits.contains c
+  pure ⟨pf, pd, isd⟩
+
+def fixerOfJson (j : Json) : Except String Fixer := do
+  let stop ← getBool j "stop"
+  let rf ← getStr j "repFloat"
+  let ro ← getBool j "repOnoff"
+  let rd ← getStr j "repDt"
+  pure ⟨⟨stop, rf, ro, rd⟩, 0, 0, []⟩
+
+def msgToJson : Msg → Json
+  | .dup n p => arr [Json.str "dup", str n, nat p]
+  | .missingRow r => arr [Json.str "missing", nat r]
+  | .illegal v => arr [Json.str "illegal", str v]
+
+def fixerToJson (f : Fixer) : Json :=
+  Json.mkObj [("errors", nat f.errors), ("warnings", nat f.warnings), ("msgs", arr (f.msgs.map msgToJson))]
+
+def colToJson : ColVals → Json
+  | .text xs => Json.mkObj [("k", "text"), ("v", arr (xs.map str))]
+  | .onoff xs => Json.mkObj [("k", "onoff"), ("v", arr (xs.map Json.bool))]
+  | .num xs => Json.mkObj [("k", "num"), ("v", arr (xs.map str))]
+  | .dt xs => Json.mkObj [("k", "dt"), ("v", arr (xs.map str))]
+  | .raw => Json.mkObj [("k", "raw"), ("v", arr [])]
+
+def precursorToJson (p : Precursor) (f : Fixer) : Json :=
+  Json.mkObj [("ok", Json.mkObj [
+    ("name", str p.name), ("transposed", Json.bool p.transposed),
+    ("destinations", arr (p.destinations.map str)), ("names", arr (p.names.map str)),
+    ("units", arr (p.units.map str)), ("columns", arr (p.columns.map colToJson)),
+    ("fixer", fixerToJson f)])]
+
+def handleReader (op : String) (j : Json) : Option (Except String Json) :=
+  match op with
+  | "precursor" | "make_table" => some do
+    let cells ← rowsOfJson (← j.getObjVal? "cells")
+    let ext ← extOfJson (← j.getObjVal? "ext")
+    let f ← fixerOfJson (← j.getObjVal? "fixer")
+    let r := if op = "precursor" then makePrecursor ext cells f else makeTable ext cells f
+    match r with
+    | .ok (p, f') => pure (precursorToJson p f')
+    | .error e => pure (exc (excName e))
+  | "parse_column" => some do
+    let unit ← getStr j "unit"
+    let cells ← rowOfJson (← j.getObjVal? "cells")
+    let ext ← extOfJson (← j.getObjVal? "ext")
+    let f ← fixerOfJson (← j.getObjVal? "fixer")
+    match parseColumn ext unit cells f with
+    | .ok (v, f') => pure (Json.mkObj [("ok", colToJson v), ("fixer", fixerToJson f')])
+    | .error e => pure (exc (excName e))
+  | "column_names" => some do
+    let cells ← rowOfJson (← j.getObjVal? "cells")
+    match parseColumnNames cells with
+    | .ok ns => pure (arr (ns.map str))
+    | .error e => pure (exc (excName e))
+  | "destinations" => some do
+    let c ← cellOfJson (← j.getObjVal? "c")
+    pure (arr ((destinations c).map str))
+  | "normalize" => some do
+    let s ← getStr j "s"
+    pure (str (normalize s))
+  | "is_missing" => some do
+    let s ← getStr j "s"
+    pure (Json.bool (isMissingMarker s))
+  | _ => none
 
 end Drv
